@@ -729,7 +729,12 @@ def deSeqLoop (ext : DeExt) (cfg : DeConfig) (S : Schema) :
     Nat → Node → Nat → Bool → Hint → Option Nat → BlockState → List Out → DeM (List Out)
   | 0, _, _, _, _, _, _, _ => DeM.fail .panic
   | fuel + 1, item, depth, ignored, eh, maxItems, bs, acc =>
-    if maxItems = some 0 then pure acc.reverse else do
+    if maxItems = some 0 then do
+      -- `ArraySeqAccess::visit`: a visitor that takes a fixed number of elements does not ask for
+      -- the one after its last; the array must end here (its end marker is read now)
+      let (more, _) ← hasMore cfg ignored bs
+      if more then DeM.fail .custom else pure acc.reverse
+    else do
     let (more, bs') ← hasMore cfg ignored bs
     if !more then pure acc.reverse else do
     let o ← de ext cfg S fuel item depth false eh
